@@ -2,7 +2,7 @@
 """
 pv.fuzz: coverage-guided generation for one Hypothesis sub-check (atheris / libFuzzer driving Hypothesis' fuzz_one_input).
 
-    python -m pv.fuzz <PROP> <SUB> <out.json> --runs N --seed S [--max-len L]
+    python -m pv.fuzz <PROP> <SUB> <out.json> --runs N --seed S [--max-len L] [--max-seconds T]
 
 The generator (a Hypothesis strategy of plain-data specs) and the oracle (`run(spec)`) are the ones of the sub-check; only the
 source of the choice sequence changes: libFuzzer mutates byte strings and keeps those that reach new branches of the
@@ -27,6 +27,7 @@ def main():
     runs = int(opts.get('--runs', 20000))
     seed = int(opts.get('--seed', 1)) or 1
     max_len = int(opts.get('--max-len', 4096))
+    max_seconds = float(opts.get('--max-seconds', 0) or 0)      # wall-clock cap of this auxiliary stage (0 = none); hitting it only ends the campaign early
     corpus = opts.get('--corpus')
     import logging
     logging.disable(logging.INFO)
@@ -77,8 +78,8 @@ def main():
             os._exit(0)
         if state['calls'] % 500 == 0:
             _dump(out, result(False))
-        if state['calls'] >= runs:
-            _dump(out, result(True))
+        if state['calls'] >= runs or (max_seconds and time.time() - t0 > max_seconds):
+            _dump(out, dict(result(True), stopped_by_time=state['calls'] < runs))
             os._exit(0)
 
     argv = [sys.argv[0], '-runs=%i' % (runs + 10), '-seed=%i' % seed, '-max_len=%i' % max_len, '-len_control=0', '-use_value_profile=1', '-verbosity=0', '-print_final_stats=0']
